@@ -248,7 +248,7 @@ REPLAY = {"words": check_words, "secrets": check_secret_reserved, "hashseeds": c
 
 _edge = st.sampled_from("ghijklmnopqrstuvwxyzGHIJKLMNOPQRSTUVWXYZ")
 _inner = st.text(alphabet="abcxyzABQ019-_", max_size=5).filter(lambda s: not _HEX6.search(s))
-_word = st.one_of(st.builds(lambda a, m, b: a + m + b, _edge, _inner, _edge), st.sampled_from(["sea", "Seattle", "sear", "intranet", "net", "zorg", "mgmt", "Kwyjibo", "lab-x", "s_t", "m\u00fcller", "Z\u00fcrich", "\u0142\u00f3d\u017a", "stra\u00dfe"]))
+_word = st.one_of(st.builds(lambda a, m, b: a + m + b, _edge, _inner, _edge), st.sampled_from(["tor", "Toronto", "torr", "intranet", "net", "zorg", "mgmt", "Kwyjibo", "lab-x", "s_t", "m\u00fcller", "Z\u00fcrich", "\u0142\u00f3d\u017a", "stra\u00dfen"]))  # all start and end with a letter outside a-f
 
 
 @st.composite
